@@ -9,6 +9,23 @@ FR = gens.CSSDOC_ALPHA + ['a{', 'b:c;', 'd: e f;', '}', '/*', '*/', '@media (min
                           '  ', '--x:y', 'a:hover{', '1px solid', ' - ', ', ']
 
 
+# declaration values with the tokens they consist of (split at blanks, commas and the operators + / * and ` - ` outside parentheses and
+# strings — written down by hand from the statement, not computed by split_value)
+VALUES = [('red', ['red']), ('1px', ['1px']), ('10px 20px', ['10px', '20px']), ('#fff', ['#fff']), ('url(a.png)', ['url(a.png)']), ('"a;b"', ['"a;b"']), ("'}'", ["'}'"]), ('"{"', ['"{"']),
+          ('rgb(1, 2, 3)', ['rgb(1, 2, 3)']), ('1px solid red', ['1px', 'solid', 'red']), ('a, b', ['a', 'b']), ('10px - 5px', ['10px', '5px']), ('calc(1px + 2px)', ['calc(1px + 2px)']),
+          ("'a\\'b'", ["'a\\'b'"]), ('url(a;b)', ['url(a;b)']), ('url(data:image/png;base64,AAA=)', ['url(data:image/png;base64,AAA=)']), ('lighten($c, 10%)', ['lighten($c, 10%)']),
+          ('-webkit-box', ['-webkit-box']), ('0', ['0']), ('b c !important', ['b', 'c', '!important']), ('url("a)b")', ['url("a)b")']), ('fn(a (b c))', ['fn(a (b c))']),
+          ('translate(calc(1px + 2px), 0) scale(2)', ['translate(calc(1px + 2px), 0)', 'scale(2)']), ('a(b(c) d) e', ['a(b(c) d)', 'e']), ('f(g(h(1, 2) 3), 4), 5', ['f(g(h(1, 2) 3), 4)', '5']),
+          ('1px\n  2px', ['1px', '2px']), ('a/b', ['a', 'b']), ('x(y) z(w (v)) u', ['x(y)', 'z(w (v))', 'u'])]
+
+
+def tok_ranges(val, toks, base):
+    out = []; i = 0
+    for t in toks:
+        j = val.index(t, i); out.append((base + j, base + j + len(t))); i = j + len(t)
+    return out
+
+
 # ------------------------------------------------------------------------------------------------- sheets with ground truth
 def gen_sheet(rnd, budget=10):
     """returns (source, items); item = dict(kind='rule'|'decl', start, end, ...) with children for rules.
@@ -32,11 +49,10 @@ def gen_sheet(rnd, budget=10):
         d['start'] = pos[0]; emit(name); d['nend'] = pos[0]
         d['colon'] = pos[0]; emit(':')
         emit(rnd.choice(['', ' ', ' ', '  ']))
-        val = rnd.choice(['red', '1px', '10px 20px', '#fff', 'url(a.png)', '"a;b"', "'}'", '"{"', 'rgb(1, 2, 3)', '1px solid red', 'a, b', '10px - 5px',
-                          'calc(1px + 2px)', "'a\\'b'", 'url(a;b)', 'url(data:image/png;base64,AAA=)', 'lighten($c, 10%)', '-webkit-box', '0', 'b c !important', 'url("a)b")', 'fn(a (b c))'])
+        val, toks = rnd.choice(VALUES)
         d['vstart'] = pos[0]; emit(val); d['vend'] = pos[0]
         d['semi'] = pos[0]; emit(';'); d['end'] = pos[0]
-        d['name'] = name; d['value'] = val
+        d['name'] = name; d['value'] = val; d['tokens'] = tok_ranges(val, toks, d['vstart'])
         return d
 
     def rule(depth):
